@@ -277,16 +277,25 @@ impl Z80Bus for TinyBus {
     fn process_unknown_opcode(&mut self, _prefix: Prefix, _opcode: Opcode) {}
 }
 
-/// Brings the CPU into the "DD prefix fetched, opcode pending" state the real way: by executing
-/// the byte sequence DD DD (the frame loop may return between the two steps).
+/// Brings the CPU into the "prefix fetched, opcode pending" state the real way: by executing
+/// the byte sequence DD DD, DD FD or DD ED (the frame loop may return between the two steps); which
+/// of the three prefixes is left pending is symbolic.
 pub(crate) fn seed_pending_dd_prefix(cpu: &mut Z80) {
-    let mut bus = TinyBus { mem: [0xDD, 0xDD, 0xDD, 0xDD] };
+    let second: u8 = if kani::any() {
+        0xDD
+    } else if kani::any() {
+        0xFD
+    } else {
+        0xED
+    };
+    let mut bus = TinyBus { mem: [0xDD, second, 0xDD, second] };
     cpu.regs.set_pc(0);
     cpu.emulate(&mut bus);
 }
 
-/// true iff the next instruction would be executed with a pending DD/FD prefix: runs `INC HL`
-/// (0x23) on the real CPU and looks whether HL or an index register moved.  Destroys PC/HL/R.
+/// true iff the next instruction would be executed with a pending DD/FD/ED prefix: runs `INC HL`
+/// (0x23) on the real CPU and looks whether HL moved (DD/FD 23 move an index register instead, ED 23 is
+/// a no-operation).  Destroys PC/HL/R.
 pub(crate) fn has_pending_prefix(cpu: &mut Z80) -> bool {
     let mut bus = TinyBus { mem: [0x23, 0x23, 0x23, 0x23] };
     let hl = cpu.regs.get_hl();
@@ -2124,8 +2133,8 @@ fn ctl_clean_after_load(e: &mut Emulator<VHost>) {
 // @prop C13
 // @tier quick
 // @timeout 600
-// @fn sna::save; sna::load; Z80::reset_control_state; Z80::emulate (to create and to observe a pending DD prefix)
-// @sym saver registers; receiver halted flag, EI-pending flag, pending-DD-prefix (created by really executing DD DD)
+// @fn sna::save; sna::load; Z80::reset_control_state; Z80::emulate (to create and to observe a pending prefix)
+// @sym saver registers; receiver halted flag, EI-pending flag, pending DD, FD or ED prefix (created by really executing DD DD, DD FD or DD ED)
 // @assert after save -> load into a machine that was halted / had just executed EI / was between DD and its opcode, the CPU is running, takes interrupts and decodes the next opcode unprefixed, and the registers are the saver's (was KF-C13-4)
 // @bound 1 save + 1 load, 128K, 7FFD 0x00; one instruction step on a 4-byte bus to observe the prefix
 // @stub ZXController::refresh_memory_dependent_devices -> no-op; ZXScreen::process_clocks -> no-op
@@ -2189,8 +2198,8 @@ fn c13_load_into_locked_receiver() {
 // @prop C14
 // @tier quick
 // @timeout 600
-// @fn sna::load; Z80::reset_control_state; Z80::emulate (to create and to observe a pending DD prefix)
-// @sym header through the spec encoder; receiver halted flag, EI-pending flag, pending DD prefix (created by really executing DD DD)
+// @fn sna::load; Z80::reset_control_state; Z80::emulate (to create and to observe a pending prefix)
+// @sym header through the spec encoder; receiver halted flag, EI-pending flag, pending DD, FD or ED prefix (created by really executing DD DD, DD FD or DD ED)
 // @assert after loading a well-formed 48K SNA the CPU is not halted, has no EI pending and decodes the next opcode unprefixed, whatever the receiver was doing (was KF-C14-1)
 // @bound 1 load, 48K, SP 0x8000; one instruction step on a 4-byte bus to observe the prefix
 // @stub ZXController::refresh_memory_dependent_devices -> no-op; ZXScreen::process_clocks -> no-op
